@@ -117,10 +117,9 @@ def run(chk):
     all_f = []
     tags_total = {}
     for g, d in [(g1, 1), (g2, 3 if quick else None), (g3, 2 if quick else 3)]:
-        failures, tags = grid.run(chk, g, d, evaluate)
+        failures, tags = grid.run(chk, g, d, evaluate, shrink=(ALL.wit, simplify, fails_fn))
         for t, n in tags.items():
             tags_total[t] = tags_total.get(t, 0) + n
-        all_f.extend((c, ALL.wit(case), e, gg) for (c, case, e, gg) in failures)
     n = chk.cov["states"]
     chk.add("transitions", n * 9)
     chk.add("evaluations", n)
@@ -130,4 +129,3 @@ def run(chk):
     chk.cov["bounds"] = {"k": k, "core_k": ck, "d": 3 if quick else "full"}
     for c in ("total", "lossless.lru", "lossless.stems", "again.lru", "unserialize", "serialize", "pipe-end"):
         chk.clause(PROP + "." + c, checked=ind, nontrivial=tags_total.get("rich", 0))
-    core.reduce_failures(chk, all_f, simplify, fails_fn)
